@@ -93,7 +93,7 @@ def _headers_hash(root):
             dirs.sort()
             for fn in sorted(files):
                 p = os.path.join(base, fn)
-                h.update(p.encode())
+                h.update(os.path.relpath(p, root).encode())
                 h.update(_read(p))
     return h.hexdigest()
 
@@ -132,12 +132,23 @@ def extract(root, scope="lib", extra_flags=(), only=None, jobs=16):
     if not files:
         raise AnalysisBroken("no translation units selected under %s" % root)
     hh = _headers_hash(root)
+    # headers generated by the configure step (config macros) are part of what a unit sees
+    gen = hashlib.sha256()
+    for base, dirs, fns in os.walk(dbdir):
+        dirs.sort()
+        for fn in sorted(fns):
+            if fn.endswith((".h", ".hpp")):
+                gen.update(os.path.relpath(os.path.join(base, fn), dbdir).encode())
+                gen.update(_read(os.path.join(base, fn)))
+    hh = sha(hh, gen.hexdigest())
     exth = sha(_read(EXTRACT_SRC))
     results = {}
 
     def one(f):
         cmd = units[f]["command"] if "command" in units[f] else " ".join(shlex.quote(a) for a in units[f]["arguments"])
-        key = sha(root, f, _read(f), hh, cmd, " ".join(extra_flags), exth)[:24]
+        # the facts of a unit are root-relative, so scratch copies of the tree share them: the key is the unit's path inside
+        # the tree, its content, the headers' content and the compile command with root and build directory normalised
+        key = sha(os.path.relpath(f, root), _read(f), hh, cmd.replace(dbdir, "$DB").replace(root, "$ROOT"), " ".join(extra_flags), exth)[:24]
         outp = os.path.join(WORK, "facts", key + ".json")
         if not os.path.exists(outp):
             os.makedirs(os.path.dirname(outp), exist_ok=True)
